@@ -162,6 +162,7 @@ static void summary(void)
     if (hq) fprintf(impl, " hq=%d", hq->entryCounter);
 }
 
+static int cur_mode = 0;
 static void flush_obs(void) { fprintf(impl, "%s", loglen ? logbuf : "-"); loglen = 0; logbuf[0] = 0; summary(); fprintf(impl, "\n"); }
 
 /* ---- operations ---- */
@@ -173,7 +174,7 @@ static void op_new(int mode, int k, int w, int t0, int t1, int t2, int t3, int m
     mem_forget_all();
     sim_reset(); n_hid = 0; n_answers = answers_pos = 0; evq_cnt = 0;
     fprintf(ops, "s.new %d %d %d %d %d %d %d %d %d %d %d %d %d\n", mode, k, w, t0, t1, t2, t3, maxopen, lowq, highq, rep, scot, sca); fflush(ops);
-    slave = CS104_Slave_create(lowq, highq);
+    slave = CS104_Slave_create(lowq, highq); cur_mode = mode;
     CS104_Slave_setServerMode(slave, (CS104_ServerMode) mode);
     CS104_APCIParameters ap = CS104_Slave_getConnectionParameters(slave);
     ap->k = k; ap->w = w; ap->t0 = t0; ap->t1 = t1; ap->t2 = t2; ap->t3 = t3;
@@ -195,6 +196,15 @@ static void op_group(const char* name, const char* ips)
     fprintf(impl, "ok\n");
 }
 static void op_start(void) { fprintf(ops, "s.start\n"); fflush(ops); CS104_Slave_startThreadless(slave); fprintf(impl, "ok\n"); }
+/* stop and start again (threadless): connections are dropped without events, counter zeroed; C18 */
+static void op_restart(void)
+{
+    n_ops++; fprintf(ops, "s.restart\n"); fflush(ops);
+    CS104_Slave_stopThreadless(slave);
+    if (cur_mode != 2) evq_cnt = 0;      /* single-group / per-connection queues are created afresh by start */
+    CS104_Slave_startThreadless(slave);
+    flush_obs();
+}
 static int op_conn(const char* peer)
 {
     fprintf(ops, "s.conn %s\n", peer); fflush(ops);
@@ -325,6 +335,10 @@ static void episode(bool thorough)
         else if (h >= 0 && r < 94) { int n = prng_range(1, 12); for (int i = 0; i < n; i++) f[i] = (uint8_t) prng_next(); if (prng_below(2)) f[0] = 0x68; if (prng_below(3) == 0 && n > 1) f[1] = prng_below(8); if (prng_below(3) == 0 && n > 2) { static const int C[] = { 0x07, 0x43, 0x13, 0x01, 0x83, 0x00 }; f[0] = 0x68; f[1] = n - 2; f[2] = C[prng_below(6)]; } op_rx(h, f, n); op_tick(1); }
         else if (h >= 0 && r < 96) { op_close(h); op_tick(1); }
         else if (h >= 0 && r < 97) { op_wfail(h, 1); op_tick(prng_below(2000)); if (prng_below(2)) op_wfail(h, 0); }
+        else if (r < 99 && prng_below(2) == 0) {   /* stop + start again, sometimes right after a peer closed (slot half released) */
+            if (h >= 0 && prng_below(2)) { op_close(h); if (prng_below(2)) op_tick(prng_below(2)); }
+            op_restart();
+            if (prng_below(2)) { char peer[80]; sprintf(peer, "10.0.0.1:%d", 41000 + nh); if (nh < 30) { hs[nh++] = op_conn(peer); op_tick(1); op_tick(1); deliver(hs[nh - 1], f, frame_u(f, 0x07)); op_tick(1); } } }
         else op_tick(0);
     }
 }
@@ -390,6 +404,7 @@ int main(int argc, char** argv)
             else if (!strcmp(tok[0], "s.close")) op_close(atoi(tok[1]));
             else if (!strcmp(tok[0], "s.wfail")) op_wfail(atoi(tok[1]), atoi(tok[2]));
             else if (!strcmp(tok[0], "s.tick")) op_tick(atoi(tok[1]));
+            else if (!strcmp(tok[0], "s.restart")) op_restart();
             else if (!strcmp(tok[0], "s.enq")) { HEX(tok[1]); op_enq(b, bn); }
             else if (!strcmp(tok[0], "s.preset")) op_preset(atoi(tok[1]), atoi(tok[2]), atoi(tok[3]));
             else if (!strcmp(tok[0], "s.answers")) { int an[16]; for (int i = 1; i < nt; i++) an[i - 1] = atoi(tok[i]); op_answers(an, nt - 1); }
